@@ -122,6 +122,13 @@ def run_history(ctx, rng, length, hid):
                     ctx.violation("request answered %d changed files of the collection tree: %s" % (st, sorted(chg)[:4]), {"history": reqs})
             for c in wellformed(after_dump):
                 ctx.violation("store not well-formed: " + c, {"history": reqs})
+            # a collection that holds something never changes its type (its members were validated for the old one)
+            tb = {tuple(e["path"]): e for e in before_dump}
+            for e in after_dump:
+                b = tb.get(tuple(e["path"]))
+                if b is not None and b["tag"] != e["tag"] and r["method"] not in ("PUT", "DELETE", "MKCOL", "MKCALENDAR"):
+                    ctx.violation("%s changed the type of the existing collection /%s from %r to %r" % (r["method"], "/".join(e["path"]), b["tag"], e["tag"]),
+                                  {"history": reqs})
             if diffs:
                 ctx.disagree("request history vs model", {"history": reqs}, diffs[:3], ans["status"] if ans else None)
                 return
